@@ -308,6 +308,51 @@ def judge_sinus(case):
     return j
 
 
+@st.composite
+def wiring_case(draw):
+    nx = draw(st.sampled_from([64, 128, 256, 65, 250]))
+    pov = draw(st.sampled_from([0.0, 0.2, 0.6] if nx in (65, 250) else [0.5, 0.0, 0.25, 0.75]))
+    return {"alg": draw(st.sampled_from(["FDD", "EFDD", "FSDD", "pLSCF"])), "nxseg": nx, "pov": pov, "method": draw(st.sampled_from(["per", "cor"])),
+            "n": draw(st.integers(1, 5)), "N": nx * draw(st.integers(3, 8)) + draw(st.integers(0, 50)), "fs": draw(st.sampled_from([1.0, 100.0, 37.5])),
+            "seed": draw(st.integers(0, 2**32 - 1))}
+
+
+def _close_spec(A, B, rtol=1e-10):
+    """entries agree relative to the geometric mean of the two autos (memory layout may change FFT rounding)"""
+    d = np.sqrt(np.abs(np.einsum("iik->ik", B)))
+    return bool(np.all(np.abs(A - B) <= rtol * np.maximum(d[:, None, :] * d[None, :, :], 1e-300)))
+
+
+def judge_wiring(case):
+    """FDD / EFDD / FSDD / pLSCF through SingleSetup: result.freq and result.Sy are the estimate for the run
+    parameters the user set (segment length, estimator, overlap) and the setup's sampling interval."""
+    from pyoma2.algorithms import EFDD, FDD, FSDD, pLSCF
+    from pyoma2.setup import SingleSetup
+
+    j = J()
+    rng = rng_of(case["seed"])
+    Y = rng.normal(size=(case["N"], case["n"])) + 0.6 * np.roll(rng.normal(size=(case["N"], case["n"])), 1, axis=0)
+    ss = SingleSetup(Y.copy(), fs=case["fs"])
+    kw = dict(name="a", nxseg=case["nxseg"], method_SD=case["method"], pov=case["pov"])
+    alg = {"FDD": FDD, "EFDD": EFDD, "FSDD": FSDD}[case["alg"]](**kw) if case["alg"] != "pLSCF" else pLSCF(ordmax=2, **kw)
+    ss.add_algorithms(alg)
+    j.tag(case["alg"], case["method"], "pov=0.5" if case["pov"] == 0.5 else "pov!=0.5")
+    j.nontrivial(case["pov"] != 0.5 or case["method"] == "cor" or case["nxseg"] % 2 == 1)
+    r = sut(ss.run_by_name, "a")
+    if raised(r) and case["alg"] == "pLSCF" and r.type == "LinAlgError":
+        j.skip("plscf-singular")  # the fit (C05), not the spectral estimate, failed
+        return j
+    if not j.check(not raised(r), "wiring-run-raises", lambda: f"{r!r}"):
+        return j
+    ref = sut(fdd.SD_est, Y.T.copy(), Y.T.copy(), 1.0 / case["fs"], case["nxseg"], method=case["method"], pov=case["pov"])
+    if raised(ref):
+        raise RuntimeError(f"{ref!r}")
+    f, Sy = np.asarray(alg.result.freq), np.asarray(alg.result.Sy)
+    j.check(f.shape == np.asarray(ref[0]).shape and np.allclose(f, ref[0], rtol=1e-12, atol=0), "wiring-freq", lambda: f"result.freq[:3]={f[:3].tolist()} vs SD_est {np.asarray(ref[0])[:3].tolist()}")
+    j.check(Sy.shape == np.asarray(ref[1]).shape and _close_spec(Sy, np.asarray(ref[1])), "wiring-Sy", lambda: f"result.Sy differs from fdd.SD_est(data, data, dt, nxseg={case['nxseg']}, method={case['method']!r}, pov={case['pov']})")
+    return j
+
+
 SUBS = [
     Sub("grid", judge_grid, record_case(), quick=200, thorough=5000,
         rule="freq = k*fs/nxseg, k=0..nxseg/2; Sy shape (n_all, n_ref, nxseg/2+1); both estimators"),
@@ -317,10 +362,12 @@ SUBS = [
         rule="'per', Yref=Y: Hermitian and min eigenvalue >= -1e-10*trace at every line"),
     Sub("welch", judge_welch, record_case(methods=("per",)), quick=200, thorough=5000,
         rule="'per' equals an independent Hann/one-sided/density Welch estimate without detrending at lines >= 2 (1e-9 relative to auto levels)"),
-    Sub("parseval", judge_parseval, record_case(methods=("per",), max_seg=40, nxmax=512), quick=150, thorough=4000,
+    Sub("parseval", judge_parseval, record_case(methods=("per",), min_seg=12, max_seg=44, nxmax=512), quick=150, thorough=4000,
         rule="sum Sy_ii*df equals the windowed mean square of the mean-removed segments exactly; >= 32 segments of >= 64 samples: record mean square within 25 %"),
     Sub("gain_delay", judge_delay, delay_case(), quick=150, thorough=4000,
         rule="reference = g*x(t-d): Sy[x,ref]/Sy[x,x] = g*exp(-2 pi i f d/fs); per 5 % every interior line, cor 30 % median; opposite conjugation rejected"),
+    Sub("class_wiring", judge_wiring, wiring_case(), quick=120, thorough=3000,
+        rule="FDD / EFDD / FSDD / pLSCF through SingleSetup: result.freq, result.Sy equal fdd.SD_est(data, data, dt, nxseg, method, pov) for the user's run parameters"),
     Sub("sinusoid", judge_sinus, sinus_case(), quick=200, thorough=5000,
         rule="'per', grid-line sinusoids with complex amplitudes over three decades: Sy[i,j]/Sy[i,i] = a_j/a_i to 1e-9"),
 ]
